@@ -113,11 +113,11 @@ class Gen:
                 add(['date'] + d, tuple(d))
             elif family == 'datetime':
                 d = [r.randint(1, 9999), r.randint(1, 12), r.randint(1, 28), r.randint(0, 23), r.randint(0, 59), r.randint(0, 59),
-                     r.choice([0, 0, 500000, 123456])]
+                     r.choice([0, 0, 500000, 123456, r.randrange(1000000), r.randrange(1000000), r.randrange(1000)])]
                 add(['datetime'] + d + [None], tuple(d))
             elif family == 'awaredt':
                 d = [r.randint(2, 9998), r.randint(1, 12), r.randint(1, 28), r.randint(0, 23), r.randint(0, 59), r.randint(0, 59),
-                     r.choice([0, 0, 500000]), r.choice([0, 60, -330, 120])]
+                     r.choice([0, 0, 500000, r.randrange(1000000), r.randrange(1000)]), r.choice([0, 60, -330, 120])]
                 # equal instants compare equal whatever the offset: key on the instant
                 inst = (d[0], d[1], d[2], d[3] * 60 + d[4] - d[7], d[5], d[6])
                 add(['datetime'] + d, inst)
@@ -285,8 +285,16 @@ def generate(seed, tier):
             primes.append([equal_variant(rp, recipe)])
         else:
             primes.append([Gen(rp, sets=sort_keys, depth=2, width=3).value(0), equal_variant(rp, recipe)])
-    return {'recipe': recipe, 'perms': perms, 'hashseeds': hs, 'opts': opts, 'dumper': dumper, 'junk': r.randrange(0, 2000),
+    case = {'recipe': recipe, 'perms': perms, 'hashseeds': hs, 'opts': opts, 'dumper': dumper, 'junk': r.randrange(0, 2000),
             'multi': g.multi, 'primes': primes}
+    if r.random() < 0.2:
+        # document order on load, for a mapping as a person would write it (plain keys that a dumper would quote)
+        rh = kernel.rng(seed, 'handdoc')
+        pool = ['=', 'yes', 'no', '~', 'null', 'true', 'on', '1', '0x1F', '1.5', '2001-01-01', 'a', 'b', 'zeta', 'Alpha', 'key',
+                '10', '010', '1e3', '.inf', '-1', '+1', 'y', 'n', 'x y', 'k2', '1_000', '0b11', '190:20:30']
+        case['handdoc'] = {'keys': rh.sample(pool, rh.randint(2, 7)), 'style': rh.choice(['block', 'block', 'flow']),
+                           'loader': rh.choice(['SafeLoader', 'CSafeLoader', 'FullLoader', 'CFullLoader', 'BaseLoader'])}
+    return case
 
 
 def describe(case):
@@ -306,6 +314,11 @@ def child(hs):
         return p
     st = build.prepare()
     env = dict(os.environ, PYTHONHASHSEED=hs, VERIF_YAML_PATH=st['path'])
+    # the process environment differs too: half of the interpreters run in the C locale without UTF-8 mode
+    if (HASHSEEDS + EXTRA_HASHSEEDS).index(hs) % 2:
+        env.update(LC_ALL='C', LANG='C', PYTHONUTF8='0', PYTHONCOERCECLOCALE='0')
+    else:
+        env.update(LC_ALL='C.UTF-8', LANG='C.UTF-8', PYTHONUTF8='1')
     p = subprocess.Popen([sys.executable, '-B', os.path.join(kernel.VERIF, 'sim', 'hashworker.py')], env=env,
                          stdin=subprocess.PIPE, stdout=subprocess.PIPE, text=True, bufsize=1)
     _children[hs] = p
@@ -352,6 +365,8 @@ def _execute(case):
         out['log'] = 'no-c'
         return out
     req = {'recipe': case['recipe'], 'perms': case['perms'], 'opts': case['opts'], 'dumper': case['dumper']}
+    if case.get('handdoc'):
+        req['handdoc'] = case['handdoc']
     answers = {}
     primes = case.get('primes') or []
     for i, hs in enumerate(case['hashseeds']):
@@ -414,6 +429,12 @@ def _execute(case):
             out['probes']['multi_document_streams'] = out['probes'].get('multi_document_streams', 0) + 1
             if a.get('multidoc'):
                 v = {'class': 'document-text-depends-on-earlier-documents', 'detail': dict(a['multidoc'], hashseed=hs, text=clip(a['texts'][0]))}
+                break
+    if v is None and case.get('handdoc'):
+        out['probes']['hand_written_mappings_loaded'] = 1
+        for hs, a in answers.items():
+            if a.get('handdoc'):
+                v = {'class': 'load-order-differs-from-document-order', 'detail': dict(a['handdoc'], hashseed=hs, loader=case['handdoc']['loader'])}
                 break
     # re-dump stability
     if v is None:
@@ -481,6 +502,10 @@ def shrink(case):
             yield dict(case, opts={kk: vv for kk, vv in case['opts'].items() if kk != k})
     if case.get('junk'):
         yield dict(case, junk=0)
+    if case.get('handdoc') and len(case['handdoc']['keys']) > 2:
+        hk = case['handdoc']['keys']
+        for i in range(len(hk)):
+            yield dict(case, handdoc=dict(case['handdoc'], keys=hk[:i] + hk[i + 1:]))
     if any(case.get('primes') or []):
         pr = case['primes']
         yield dict(case, primes=[[] for _ in pr])
